@@ -506,6 +506,48 @@ fn exhaustive_slice(ts: &[Target], lo: i64, hi: i64, c: &mut Collector) {
     }
 }
 
+/// A decimal within a hair of the midpoint of two adjacent f32 values (exactly on it, just above,
+/// just below): the digits are the exact expansion of the midpoint, which an f64 holds exactly, so
+/// any conversion that goes through a wider or narrower float first rounds twice and shows.
+fn hard_f32(rng: &mut Rng) -> String {
+    let a = loop {
+        let a = f32::from_bits((rng.next_u64() as u32) & 0x7fff_ffff);
+        if a.is_finite() && a < f32::MAX {
+            break a;
+        }
+    };
+    // small exponents make the expansion short enough to be a comfortable literal as well
+    let a = if rng.chance(1, 3) { f32::from_bits(0x3f80_0000 + (rng.next_u64() as u32 & 0x00ff_ffff)) } else { a };
+    let b = f32::from_bits(a.to_bits() + 1);
+    let mid = (a as f64 + b as f64) / 2.0;
+    let mut d = format!("{mid:.180}");
+    while d.ends_with('0') && !d.ends_with(".0") {
+        d.pop();
+    }
+    match rng.below(3) {
+        0 => d,
+        1 => format!("{d}0000000000000000000001"),
+        _ => {
+            // just below: decrement the last non-zero digit and pad with nines
+            let mut bytes = d.into_bytes();
+            let mut i = bytes.len();
+            while i > 0 {
+                i -= 1;
+                if bytes[i].is_ascii_digit() && bytes[i] != b'0' {
+                    bytes[i] -= 1;
+                    break;
+                }
+                if bytes[i].is_ascii_digit() {
+                    bytes[i] = b'9';
+                }
+            }
+            let mut d = String::from_utf8(bytes).unwrap();
+            d.push_str("9999999999999999999999");
+            d
+        }
+    }
+}
+
 fn random_case(ts: &[Target], rng: &mut Rng, c: &mut Collector) {
     let pos = rng.below(4);
     match rng.below(12) {
@@ -557,7 +599,27 @@ fn random_case(ts: &[Target], rng: &mut Rng, c: &mut Collector) {
             let n2 = rng.range(1, 25);
             let fp = rand_digits(rng, n2);
             let ex = rng.range(0, 400) as i32 * if rng.coin() { 1 } else { -1 };
-            let (clean, needs_float_form) = match rng.below(6) {
+            let (clean, needs_float_form) = match rng.below(9) {
+                6 => (hard_f32(rng), true),
+                7 => {
+                    // shortest round-trip and scientific spellings of arbitrary bit patterns
+                    let x = loop {
+                        let x = f64::from_bits(rng.next_u64());
+                        if x.is_finite() {
+                            break x.abs();
+                        }
+                    };
+                    (if rng.coin() { format!("{x:e}") } else { format!("{:e}", x as f32) }, true)
+                }
+                8 => {
+                    let x = loop {
+                        let x = f32::from_bits(rng.next_u64() as u32);
+                        if x.is_finite() {
+                            break x.abs();
+                        }
+                    };
+                    (format!("{:.1}", x as f64), true)
+                }
                 0 => (format!("{ip}.{fp}"), true),
                 1 => (format!("{ip}e{ex}"), true),
                 2 => (format!("{ip}.{fp}e{ex}"), true),
